@@ -78,7 +78,7 @@ func classify(t string, cs *Case) class {
 
 			return class{"reject", "no-subject-in-response"}
 		}
-	case "jwt":
+	case "jwt", "jwtmd":
 		switch {
 		case a.Scheme == "":
 			return class{"none", "absent"}
